@@ -549,6 +549,9 @@ pub struct Sim {
     pub api: u32,
     /// planned faults: (stream-call seq, fault); consumed when fired
     pub plan: Vec<(u64, Fault)>,
+    /// a fault aimed at the `nth` stream call (0-based) of API call `api`, lasting `len`
+    /// consecutive stream calls (an outage may span into the next API call)
+    pub plan_api: Option<(u32, u64, Fault, u8)>,
     pub chunking: Chunking,
     chunk_rng: Rng,
     /// probability (per million read/write calls) of a transparent Interrupted
@@ -607,6 +610,7 @@ impl Sim {
             seq: 0,
             api: 0,
             plan: Vec::new(),
+            plan_api: None,
             chunking: Chunking::Full,
             chunk_rng: Rng::new(0),
             intr_ppm: 0,
@@ -719,6 +723,15 @@ impl Sim {
     }
 
     fn take_fault(&mut self, seq: u64) -> Option<Fault> {
+        if let Some((api, nth, f, len)) = self.plan_api {
+            if api == self.api && self.ops_in_call == nth + 1 {
+                self.plan_api = None;
+                for i in 1..len as u64 {
+                    self.plan.push((seq + i, f));
+                }
+                return Some(f);
+            }
+        }
         if self.plan.is_empty() {
             return None;
         }
